@@ -457,7 +457,7 @@ func parseField(v reflect.Value, data []byte, initOffset int, info *fieldInfo) (
 			// Only byte/uint8 arrays are supported
 			return offset, structuralError{info.fieldName(), "unsupported array type: " + v.Type().String()}
 		}
-		reflect.Copy(v, reflect.ValueOf(inner))
+		setBytes(v, inner)
 		return offset, nil
 
 	case reflect.Slice:
@@ -481,7 +481,7 @@ func parseField(v reflect.Value, data []byte, initOffset int, info *fieldInfo) (
 		if fieldType.Elem().Kind() == reflect.Uint8 {
 			// Fast version for []byte
 			v.Set(reflect.MakeSlice(sliceType, datalen, datalen))
-			reflect.Copy(v, reflect.ValueOf(inner))
+			setBytes(v, inner)
 			return offset, nil
 		}
 
@@ -499,6 +499,19 @@ func parseField(v reflect.Value, data []byte, initOffset int, info *fieldInfo) (
 
 	default:
 		return offset, structuralError{info.fieldName(), fmt.Sprintf("unsupported type: %s of kind %s", fieldType, v.Kind())}
+	}
+}
+
+// setBytes copies data into v, an array or slice of len(data) elements of kind
+// uint8. reflect.Copy insists on identical element types, so elements of a
+// named byte type are set one by one.
+func setBytes(v reflect.Value, data []byte) {
+	if v.Type().Elem() == reflect.TypeOf(uint8(0)) {
+		reflect.Copy(v, reflect.ValueOf(data))
+		return
+	}
+	for i, b := range data {
+		v.Index(i).SetUint(uint64(b))
 	}
 }
 
